@@ -10,6 +10,8 @@ ops (one line in, one line out):
   `checkFn sigma f body = true` fails, each with the offending path;
 * `orderviolations` -> the acquired-while-holding edges that break the lock-class order, with functions;
 * `edges` -> all acquired-while-holding class pairs;
+* `txviolations` -> functions failing the check-then-act (transaction) obligation;
+* `needs` / `needsnocaller` / `eitherlock` -> inferred entry requirements and what is not checked;
 * `stats` -> `functions=… locks=… classes=… entries=… declared=… skipped=… inlined=… trivial=…`;
 * `skipped` / `declared` / `inlined` / `files` -> the corresponding generated tables;
 * `consistent` -> `true|false` (the compiled `consistent sigma prog`).
@@ -18,7 +20,9 @@ namespace BbRe.Drivers.LockSkel
 open BbRe.LockSkel BbRe.Generated.LockSkel BbRe.Drivers
 
 def names : Diag.Names where
-  lock := fun i => lockNames.getD i s!"lock#{i}"
+  lock := fun i => if isGhost i then "‹a lock of class " ++ classNames.getD (gcls i) "?" ++ " held by the caller›"
+    else (lockNames.lookup i).getD s!"lock#{i}"
+  gclass := fun c => classNames.getD c s!"class#{c}"
   pile := fun i => pileNames.getD i s!"pile#{i}"
   fn := fun i => fnNames.getD i s!"fn#{i}"
   why := fun i => whyNames.getD i s!"why#{i}"
@@ -28,10 +32,14 @@ def sep (xs : List String) : String := s!"{xs.length}" ++ String.join (xs.map (f
 def step (_ : Unit) (ws : List String) : Unit × String :=
   match ws with
   | ["violations"] => ((), sep ((Diag.explainAll names sigma prog).map (·.2)))
-  | ["orderviolations"] => ((), sep (Diag.explainEdges names (fun c => classNames.getD c s!"class#{c}") classNames.length lockClass acqTbl sigma prog))
-  | ["edges"] => ((), sep (Diag.showEdges (fun c => classNames.getD c s!"class#{c}") ((edgesProg lockClass acqTbl sigma prog []).getD [])))
-  | ["consistent"] => ((), toString (consistent sigma prog && entriesBalanced sigma entries))
-  | ["stats"] => ((), s!"functions={prog.length} locks={lockNames.length} classes={classNames.length} entries={entries.length} declared={declared.length} skipped={skipped.length} inlined={inlinedFns.length} trivial={trivialFns.length}")
+  | ["orderviolations"] => ((), sep (Diag.explainEdges names (fun c => classNames.getD c s!"class#{c}") classNames.length edgeClass acqTbl sigma prog))
+  | ["edges"] => ((), sep (Diag.showEdges (fun c => classNames.getD c s!"class#{c}") ((edgesProg edgeClass acqTbl sigma prog []).getD [])))
+  | ["txviolations"] => ((), sep (Diag.explainTx names edgeClass relTbl prog))
+  | ["needs"] => ((), sep inferredNeeds)
+  | ["needsnocaller"] => ((), sep needsWithoutCaller)
+  | ["eitherlock"] => ((), sep eitherLockHelpers)
+  | ["consistent"] => ((), toString (consistent sigma prog && entriesBalanced sigma entries && txOk edgeClass relTbl prog))
+  | ["stats"] => ((), s!"functions={prog.length} locks={lockNames.length} classes={classNames.length} entries={entries.length} declared={declared.length} skipped={skipped.length} inlined={inlinedFns.length} trivial={trivialFns.length} touches={touchCount} inferredNeeds={inferredNeeds.length} needsWithoutCaller={needsWithoutCaller.length} eitherLockHelpers={eitherLockHelpers.length}")
   | ["skipped"] => ((), sep (skipped.map (fun x => x.1 ++ " — " ++ x.2)))
   | ["declared"] => ((), sep (declared.map (fun x => x.1 ++ " — " ++ x.2)))
   | ["inlined"] => ((), sep inlinedFns)
